@@ -63,6 +63,12 @@ PL.h_exactfill = _poll_complete
 PL.h_cap = _poll_complete
 PL.h_pending = PP.poll_header_rules
 
+import r_pe3 as P3
+D.h_dispatch3 = P3.h_dispatch3
+PL.g_dispatch = P3.h_dispatch3
+L.l_fixed = P3.l_fixed_values
+L.t_ctl = P3.l_fixed_values
+
 PROPS = {}
 
 RULE_TEXT = ("Obligations are rule instances evaluated on facts exported from the type-checked program "
